@@ -1,0 +1,14 @@
+//go:build verif
+
+package example
+
+import "github.com/hneemann/parser2/funcGen"
+
+// Verification hooks (build tag verif): accessors for the unexported example generators.
+// Add-only; not compiled without the tag.
+
+// VerifBoolParser returns the generator of bool.go (the package variable itself).
+func VerifBoolParser() *funcGen.FunctionGenerator[bool] { return boolParser }
+
+// VerifMinimal returns the generator of minimal.go (the package variable itself).
+func VerifMinimal() *funcGen.FunctionGenerator[float64] { return minimal }
